@@ -127,7 +127,7 @@ Fixpoint compile (en : env) (l : list sstmt) : option (list cmd * env) :=
           else None
         | _, _ => None
         end
-      | XOp "==" [XInt 0%Z; XCall "stat" [p; _]] =>
+      | XOp "==" [XInt 0%Z; XCall "stat" [p; _]] | XOp "==" [XCall "stat" [p; _]; XInt 0%Z] =>
         match tgt_of en p with
         | Some TPath => if forallb meta_only h then cont [CDo AMeta] en r else None
         | _ => None
